@@ -9,6 +9,7 @@ import (
 	"github.com/ipfs/go-cid"
 	"github.com/ipld/go-car/cmd/car/lib"
 	carv2 "github.com/ipld/go-car/v2"
+	"github.com/ipld/go-car/v2/blockstore"
 )
 
 // ImageReport is the reference decode of a finalized CARv2/CARv1 image.
@@ -144,6 +145,36 @@ func checkImage(engine string, cfg Config, roots []cid.Cid, stored []Blk, atMost
 	}
 	if inspErr != nil {
 		return rep, viol(engine+"/archive-malformed/inspect-rejects", "the library's Inspect(true) rejects the finalized file: %v", inspErr)
+	}
+	// ... and the index in the file resolves every stored section through the library's own reader
+	var roErr error
+	var bad string
+	pv = safeCall(func() {
+		ro, err := blockstore.NewReadOnly(bytes.NewReader(image), nil, cfg.Options()...)
+		if err != nil {
+			roErr = err
+			return
+		}
+		for _, b := range stored {
+			blk, err := ro.Get(bg, b.Cid)
+			if err != nil {
+				bad = fmt.Sprintf("Get(%s): %v", b.Spec, err)
+				return
+			}
+			if !bytes.Equal(blk.RawData(), b.Data) {
+				bad = fmt.Sprintf("Get(%s) returned %d bytes, want %d", b.Spec, len(blk.RawData()), len(b.Data))
+				return
+			}
+		}
+	})
+	if pv != nil {
+		return rep, viol(engine+"/archive-malformed/readonly-panic", "opening the finalized file read-only panicked: %v", pv)
+	}
+	if roErr != nil {
+		return rep, viol(engine+"/archive-malformed/readonly-rejects", "the library cannot open the finalized file read-only: %v", roErr)
+	}
+	if bad != "" {
+		return rep, viol(engine+"/archive-malformed/index-does-not-resolve", "a read-only store over the finalized file does not return a stored block: %s", bad)
 	}
 	return rep, nil
 }
